@@ -403,6 +403,12 @@ VARIANTS = [
     brk('B-drop-pops-wrong-key', ['C14'], 'R-drop-teardown', (TR, "self._nodeAddrToNode.pop(node.address, None)", "self._nodeAddrToNode.pop(node, None)")),
     brk('B-readonly-id-from-set-size', ['C14', 'C18'], 'R-readonly-id-unique', (TR, "            nodeId = str(self._readonlyNodesCounter)\n", "            nodeId = str(len(self._readonlyNodes))\n"), (TR, "            self._readonlyNodesCounter += 1\n", "")),
     keep('P-py3-range-items', (S, r'\bxrange\(', 'range('), (S, r' in iteritems\(([A-Za-z_.]+)\)', r' in \1.items()'), regex=True),
+    brk('B-observer-connect-no-match-index', ['C18'], 'R-observer-bookkeeping', (S, "        self.__raftNextIndex[node] = self.__getCurrentLogIndex() + 1\n        self.__raftMatchIndex[node] = 0\n\n    def __onReadonlyNodeDisconnected", "        self.__raftNextIndex[node] = self.__getCurrentLogIndex() + 1\n\n    def __onReadonlyNodeDisconnected")),
+    brk('B-add-member-guard-and', ['C10'], 'R-removed-excluded', (S, "if newNode == self.__selfNode or newNode in self.__otherNodes:", "if newNode == self.__selfNode and newNode in self.__otherNodes:")),
+    brk('B-fork-parent-forgets-child', ['C09'], 'R-serializer-idle', (SER, "            if pid != 0:\n                self.__pid = pid\n                return", "            if pid != 0:\n                return")),
+    brk('B-apply-drops-kwargs', ['C11'], 'R-cmd-shapes', (S, "            funcID, args, newKwArgs = command\n            kwargs.update(newKwArgs)\n", "            funcID, args, newKwArgs = command\n")),
+    brk('B-dispatch-arity-swapped', ['C11'], 'R-cmd-shapes', (S, "        elif len(command) == 2:\n            funcID, args = command", "        elif len(command) != 2:\n            funcID, args = command")),
+    brk('B-battery-setitem-noop', ['C15'], 'R-delegate-agree', (B, "        \"\"\"Set value for specified key\"\"\"\n        self.__data[key] = value", "        \"\"\"Set value for specified key\"\"\"\n        pass")),
     keep('P-rename-transport-privates', (TR, '_shouldConnect', '_mustDial'), (TR, '_onIncomingMessageReceived', '_onHandshake'), (TR, '_connectIfNecessarySingle', '_dialOne'),
          (TR, '_onDisconnected', '_onConnLost')),
     keep('P-checkserializing-hoist-reset', (SER, "                serializeState = SERIALIZER_STATE.SUCCESS if self.__pid == -1 else SERIALIZER_STATE.FAILED\n                self.__pid = 0\n", "                finished = self.__pid\n                self.__pid = 0\n                serializeState = SERIALIZER_STATE.SUCCESS if finished == -1 else SERIALIZER_STATE.FAILED\n")),
